@@ -60,12 +60,12 @@ Fixpoint mismz {A} (ok : A -> bool) (i : N) (l : list A) : list N :=
   end.
 
 Definition zng_mismatches (l : list (bytes * lz4_tbl * (N * N))) : list N :=
-  mismz (fun '(b, t, obs) => agrees (parse (lz4_of t) false cmax b) obs) 0 l.
+  mismz (fun '(b, t, obs) => agrees (zng_parse (lz4_of t) cmax b) obs) 0 l.
 
 (* what the model says, for diagnosis: (class, code/nvals, sem) *)
 Definition zng_model (l : list (bytes * lz4_tbl * (N * N))) : list (N * N * bool) :=
   map (fun '(b, t, _) =>
-         let v := parse (lz4_of t) false cmax b in
+         let v := zng_parse (lz4_of t) cmax b in
          match out v with
          | Ok n => (0%N, n, sem v) | Err e => (1%N, err_code e, sem v) | Panic => (2%N, 0%N, sem v)
          end) l.
